@@ -328,7 +328,8 @@ class HandshakeRace(core.Scenario):
         for g in self.polls:
             self.led.absorb_poll(g)
         tr = w.transport(self.sid)
-        if ref['upgraded'] != (tr == 'websocket') and not ref['pending']:
+        ended_after = ref['upgraded'] and any(e in ('1', 'CLOSE') or is_over(e) for e in ref['rest'])
+        if ref['upgraded'] != (tr == 'websocket') and not ref['pending'] and not (ended_after and tr is None):
             self.flag('handshake_outcome_wrong', 'transport() = %r, reference upgraded=%s' % (tr, ref['upgraded']), trigger='race')
         if tr == 'polling' and self.sid in w.live_sids():
             for _ in range(3):
